@@ -256,7 +256,8 @@ func c07Profiles(tier Tier) []*explore.Profile {
 			return acts
 		},
 	}
-	return []*explore.Profile{p, highNonceProfile("high-nonce", tier, []explore.Oracle{&nonceOracle{property: "C07"}}, 3)}
+	return []*explore.Profile{p, highNonceProfile("high-nonce", tier, []explore.Oracle{&nonceOracle{property: "C07"}}, 3),
+		highNonceProfileAt("high-nonce-256", tier, []explore.Oracle{&nonceOracle{property: "C07"}}, 3, 256)}
 }
 
 func handoverMenu(w *world.World, o menuOpts, toks [][]byte) []world.Action {
